@@ -271,3 +271,4 @@ def fidelity(tier, seed):
     """A-FRONT guard: the scalar functions of the files under contract, interpreter (float mode) vs compiled real code, bit for bit"""
     from gm2v import fidelity as _fid
     return _fid.scalar_guard(['src/gm2_ffunctions.cpp', 'src/gm2_dilog.cpp'], ['src/gm2_numerics.cpp'], n_calls=25 if tier == 'quick' else 200, seed=seed)
+from contracts import c01_special  # noqa: real/complex dilogarithm, Clausen
